@@ -1,6 +1,7 @@
 package main
 
 import (
+	"strings"
 	"go/ast"
 	"go/token"
 )
@@ -66,6 +67,38 @@ func extractSigGrammar(out string) {
 		return true
 	})
 	l.strList("parseSteps", post)
+	// the bound on the nesting and how it is measured
+	if v, ok := constOf(f, "MaxDepth"); ok {
+		l.nat("maxDepth", v)
+	} else {
+		fail("%s: constant MaxDepth not found", file)
+	}
+	nf := mustFunc(f, file, "", "nesting")
+	var nest []string
+	ast.Inspect(nf.Body, func(n ast.Node) bool {
+		switch v := n.(type) {
+		case *ast.ForStmt:
+			nest = append(nest, "for "+src(v.Init)+"; "+src(v.Cond)+"; "+src(v.Post))
+		case *ast.SwitchStmt:
+			nest = append(nest, "switch "+src(v.Tag))
+		case *ast.CaseClause:
+			var cs []string
+			for _, e := range v.List {
+				cs = append(cs, src(e))
+			}
+			nest = append(nest, "case "+strings.Join(cs, ", "))
+		case *ast.IfStmt:
+			nest = append(nest, "if "+src(v.Cond))
+		case *ast.IncDecStmt:
+			nest = append(nest, src(v))
+		case *ast.AssignStmt:
+			nest = append(nest, src(v))
+		case *ast.ReturnStmt:
+			nest = append(nest, src(v))
+		}
+		return true
+	})
+	l.strList("nestingSteps", nest)
 
 	// the callbacks: index expressions and type assertions they perform (the places that
 	// can panic or turn into error nodes)
